@@ -214,3 +214,500 @@ Section AsmProofs.
     eapply fixpoint_exact; eauto.
   Qed.
 End AsmProofs.
+
+(* ================================================================== assembler output is canonical *)
+Local Open Scope N_scope.
+
+Definition is_special (name : string) : bool :=
+  existsb (String.eqb name) ["arg"; "intc"; "bytec"; "intcblock"; "bytecblock"]%string.
+
+(* list immediates of a physically possible size (a count that fits 64 bits) *)
+Definition feasible_imm (x : simm) : bool :=
+  match x with
+  | SInts l => u64_ok (nlen l)
+  | SBytess l => u64_ok (nlen l)
+  | _ => true
+  end.
+Definition feasible (p : list sinstr) : bool :=
+  forallb (fun si => forallb feasible_imm (s_imms si)) p.
+
+Lemma single_kind : forall (ims : list immediate) k,
+  map (fun im => kind_of (im_kind im)) ims = [k] -> exists im, ims = [im] /\ kind_of (im_kind im) = k.
+Proof.
+  intros ims k H. destruct ims as [|im [|im2 r]]; simpl in H; try discriminate.
+  inversion H. eauto.
+Qed.
+
+Section AsmCanon.
+  Variable tbl : N -> N -> opspec * list opspec.
+  Variable grp : N -> list fspec.
+  Variable names : N -> string -> option opspec.
+  Variable agrp : string -> N -> N.
+  Variable max_str : N.
+  Variable back_ver : N.
+  Variable logic_ver : N.
+
+  Notation spec_at := (spec_at tbl).
+  Notation wf_instr := (wf_instr tbl grp).
+  Notation imms_wf := (imms_wf grp).
+  Notation imm_wf := (imm_wf grp).
+  Notation by_name := (by_name names).
+  Notation asm_default_imms := (asm_default_imms grp agrp).
+  Notation asm_default := (asm_default grp agrp).
+  Notation asm_res := (asm_res grp names agrp max_str).
+  Notation asm_one := (asm_one tbl grp names agrp max_str).
+  Notation asm_pass1 := (asm_pass1 tbl grp names agrp max_str).
+  Notation asm_base := (asm_base tbl grp names agrp max_str back_ver logic_ver).
+  Notation resolve_all := (resolve_all back_ver).
+  Notation resolve_one := (resolve_one back_ver).
+  Notation resolve2 := (resolve2 back_ver).
+  Notation resolve2s := (resolve2s back_ver).
+
+  (* facts about the tables (decided by vm_compute for the regenerated tables) *)
+  Hypothesis Hlv : logic_ver < 2 ^ 64.
+  Hypothesis Hmax : max_str < 2 ^ 64.
+  Hypothesis Hcons : forall v o s op, spec_at v o s = Some op ->
+    os_opcode op = o /\ os_sub op = s /\ o < 256 /\ s < 256.
+  Hypothesis Hnosub : forall v o s op, spec_at v o s = Some op -> s <> 0 ->
+    os_imms op = [] /\ is_special (os_name op) = false.
+  Hypothesis Hfield : forall v o s op im b, spec_at v o s = Some op -> In im (os_imms op) ->
+    (im_kind im = 0 -> field_ok grp v (agrp (os_name op) (im_group im)) b = true ->
+     (b <? 256) && field_named grp (im_group im) b = true) /\
+    (im_kind im = 1 -> im_group im = 0).
+  Hypothesis Hblock : forall v o s op, spec_at v o s = Some op ->
+    (os_name op = "intcblock"%string -> map (fun im => kind_of (im_kind im)) (os_imms op) = [KInts]) /\
+    (os_name op = "bytecblock"%string -> map (fun im => kind_of (im_kind im)) (os_imms op) = [KBytess]).
+  Hypothesis Hshort : forall v o s op base n, spec_at v o s = Some op -> os_name op = base ->
+    In base ["arg"; "intc"; "bytec"]%string -> n < 4 ->
+    let a := by_name v (short_name base n) in
+    wf_instr v (mkI (os_opcode a) (os_sub a) []) = true /\ (base <> "arg"%string -> os_sub a = 0).
+  Hypothesis Hlong : forall v o s op base n, spec_at v o s = Some op -> os_name op = base ->
+    In base ["intc"; "bytec"]%string -> 4 <= n -> n < 256 ->
+    wf_instr v (mkI (os_opcode (by_name v base)) 0 [VByte n]) = true.
+
+  Definition fixed_wf (v : N) (bytes : list N) : Prop :=
+    exists i, wf_instr v i = true /\ bytes = enc_instr i.
+
+  Lemma wf_intro : forall v o s op xs,
+    spec_at v o s = Some op -> imms_wf (os_imms op) xs = true -> wf_instr v (mkI o s xs) = true.
+  Proof.
+    intros v o s op xs Hs Hi. destruct (Hcons _ _ _ _ Hs) as [H1 [H2 [H3 H4]]].
+    unfold AvmCodec.wf_instr, spec_of. cbn [i_op i_sub i_imms]. rewrite Hs.
+    rewrite H1, H2, !N.eqb_refl. rewrite Hi.
+    apply N.ltb_lt in H3. apply N.ltb_lt in H4. rewrite H3, H4. reflexivity.
+  Qed.
+
+  Lemma enc_head : forall op xs,
+    enc_instr (mkI (os_opcode op) (os_sub op) xs) = spec_head op ++ flat_map enc_imm xs.
+  Proof. intros. unfold enc_instr, spec_head. cbn [i_op i_sub i_imms]. reflexivity. Qed.
+
+  Lemma field_named_0 : forall b, field_named grp 0 b = true.
+  Proof. reflexivity. Qed.
+
+  Lemma default_imms_wf : forall v o s op, spec_at v o s = Some op ->
+    forall ims xs l, incl ims (os_imms op) ->
+    asm_default_imms v (os_name op) ims xs = Some l ->
+    imms_wf ims (map VByte l) = true /\ flat_map enc_imm (map VByte l) = l.
+  Proof.
+    intros v o s op Hs. induction ims as [|im ims IH]; intros xs l Hin H.
+    - destruct xs; cbn [AvmCodec.asm_default_imms] in H; try discriminate. inversion H; subst. auto.
+    - destruct xs as [|x xs]; cbn [AvmCodec.asm_default_imms] in H; try discriminate.
+      destruct x; try discriminate.
+      match type of H with (if ?c then _ else _) = _ => destruct c eqn:Eok end; try discriminate.
+      destruct (asm_default_imms v (os_name op) ims xs) as [l'|] eqn:E; try discriminate.
+      inversion H; subst l.
+      assert (Him : In im (os_imms op)) by (apply Hin; left; reflexivity).
+      assert (Hin' : incl ims (os_imms op)) by (intros y Hy; apply Hin; right; exact Hy).
+      destruct (IH xs l' Hin' E) as [I1 I2].
+      destruct (Hfield v o s op im b Hs Him) as [F0 F1].
+      cbn [map AvmCodec.imms_wf flat_map enc_imm]. rewrite I1, I2.
+      split; [|reflexivity]. rewrite andb_true_r.
+      unfold AvmCodec.imm_wf.
+      destruct (im_kind im =? 0) eqn:E0.
+      + apply N.eqb_eq in E0. unfold kind_of. rewrite E0. cbn. apply F0; auto.
+      + destruct (im_kind im =? 1) eqn:E1; try discriminate.
+        apply N.eqb_eq in E1. unfold kind_of. rewrite E1. cbn.
+        rewrite (F1 E1). rewrite field_named_0. rewrite Eok. reflexivity.
+  Qed.
+
+  Lemma default_fixed : forall v o s op st si pi st',
+    spec_at v o s = Some op -> asm_default v st si op = Some (pi, st') ->
+    exists bytes, pi = PFixed bytes /\ fixed_wf v bytes.
+  Proof.
+    intros v o s op st si pi st' Hs H. unfold AvmCodec.asm_default in H.
+    destruct (asm_default_imms v (os_name op) (os_imms op) (s_imms si)) as [l|] eqn:E; try discriminate.
+    match type of H with (if ?c then _ else _) = _ => destruct c end; try discriminate.
+    inversion H; subst. eexists. split; [reflexivity|].
+    destruct (default_imms_wf v o s op Hs (os_imms op) (s_imms si) l (incl_refl _) E) as [I1 I2].
+    destruct (Hcons _ _ _ _ Hs) as [H1 [H2 _]].
+    exists (mkI o s (map VByte l)). split.
+    - eapply wf_intro; eauto.
+    - rewrite <- H1, <- H2. rewrite enc_head. rewrite I2. reflexivity.
+  Qed.
+
+  Lemma sub_zero_of_imms : forall v o s op, spec_at v o s = Some op -> os_imms op <> [] -> s = 0.
+  Proof.
+    intros v o s op Hs Hne. destruct (N.eq_dec s 0) as [E|E]; auto.
+    destruct (Hnosub _ _ _ _ Hs E) as [H _]. contradiction.
+  Qed.
+
+  Lemma sub_zero_of_special : forall v o s op, spec_at v o s = Some op ->
+    is_special (os_name op) = true -> s = 0.
+  Proof.
+    intros v o s op Hs Hsp. destruct (N.eq_dec s 0) as [E|E]; auto.
+    destruct (Hnosub _ _ _ _ Hs E) as [_ H]. rewrite H in Hsp. discriminate.
+  Qed.
+
+  Lemma short_fixed : forall v o s op base n, spec_at v o s = Some op -> os_name op = base ->
+    In base ["arg"; "intc"; "bytec"]%string -> n < 4 ->
+    fixed_wf v (spec_head (by_name v (short_name base n))).
+  Proof.
+    intros v o s op base n Hs Hn Hb Hlt. pose proof (Hshort v o s op base n Hs Hn Hb Hlt) as H.
+    cbv zeta in H. destruct H as [H _].
+    eexists. split; [exact H|]. rewrite enc_head. cbn [flat_map]. rewrite app_nil_r.
+    reflexivity.
+  Qed.
+
+  Lemma const_fixed : forall v o s op base n defined l, spec_at v o s = Some op -> os_name op = base ->
+    In base ["intc"; "bytec"]%string -> n < 256 ->
+    write_const names v base n defined = Some l -> fixed_wf v l.
+  Proof.
+    intros v o s op base n defined l Hs Hn Hb Hlt H. unfold write_const in H.
+    destruct (defined <=? n); try discriminate. inversion H; subst l. clear H.
+    destruct (n <? 4) eqn:E4.
+    - apply N.ltb_lt in E4.
+      assert (Hb' : In base ["arg"; "intc"; "bytec"]%string) by (simpl in *; tauto).
+      pose proof (Hshort v o s op base n Hs Hn Hb' E4) as Hw. cbv zeta in Hw.
+      destruct Hw as [Hw Hz].
+      assert (Hna : base <> "arg"%string).
+      { simpl in Hb. destruct Hb as [Hb|[Hb|[]]]; rewrite <- Hb; intros C; discriminate C. }
+      specialize (Hz Hna).
+      eexists. split; [exact Hw|]. unfold enc_instr. cbn [i_op i_sub i_imms flat_map].
+      rewrite Hz. reflexivity.
+    - apply N.ltb_ge in E4.
+      exists (mkI (os_opcode (by_name v base)) 0 [VByte n]). split.
+      + eapply Hlong; eauto.
+      + reflexivity.
+  Qed.
+
+  (* what the first pass may leave for one instruction *)
+  Definition branch_spec (v opb : N) (k : ikind) : Prop :=
+    exists op, spec_at v opb 0 = Some op /\ map (fun im => kind_of (im_kind im)) (os_imms op) = [k].
+
+  Definition pinstr_ok (v : N) (pi : pinstr) : Prop :=
+    match pi with
+    | PFixed b => fixed_wf v b
+    | PBranch2 opb _ => branch_spec v opb KLabel
+    | PBranchV opb _ => branch_spec v opb KVLabel
+    | PSwitch opb ks => branch_spec v opb KLabels /\ (List.length ks <= 255)%nat
+    end.
+
+  Lemma u64_of_max : forall n, n <=? max_str = true -> u64_ok n = true.
+  Proof. intros n H. apply N.leb_le in H. unfold u64_ok. apply N.ltb_lt. lia. Qed.
+
+  Lemma forallb_u64_of_max : forall (l : list (list N)),
+    forallb (fun bs => nlen bs <=? max_str) l = true -> forallb (fun bs => u64_ok (nlen bs)) l = true.
+  Proof.
+    induction l; simpl; auto. intros H. apply andb_true_iff in H. destruct H as [H1 H2].
+    rewrite (u64_of_max _ H1). auto.
+  Qed.
+
+  (* one-immediate ops assembled by their own function: opcode byte + the immediate *)
+  Lemma single_fixed : forall v o s op x,
+    spec_at v o s = Some op -> os_imms op <> [] ->
+    imms_wf (os_imms op) [x] = true ->
+    fixed_wf v (os_opcode op :: enc_imm x).
+  Proof.
+    intros v o s op x Hs Hne Hw.
+    pose proof (sub_zero_of_imms v o s op Hs Hne) as Hz. subst s.
+    destruct (Hcons _ _ _ _ Hs) as [H1 [H2 _]].
+    exists (mkI o 0 [x]). split.
+    - eapply wf_intro; eauto.
+    - unfold enc_instr. cbn [i_op i_sub i_imms flat_map]. rewrite app_nil_r. rewrite H1. reflexivity.
+  Qed.
+
+  Lemma asm_res_ok : forall v o s op st si pi st',
+    spec_at v o s = Some op -> o = s_op si -> forallb feasible_imm (s_imms si) = true ->
+    asm_res v st si op = Some (pi, st') -> pinstr_ok v pi.
+  Proof.
+    intros v o s op st si pi st' Hs Ho Hfe H. unfold AvmCodec.asm_res in H.
+    destruct (Hcons _ _ _ _ Hs) as [Hop [Hsub _]].
+    destruct (String.eqb (os_name op) "arg") eqn:Earg.
+    { apply String.eqb_eq in Earg.
+      destruct (s_imms si) as [|[n| | | | | | |] [|? ?]]; try discriminate.
+      destruct (n <? 256) eqn:E256; try discriminate.
+      destruct (n <? 4) eqn:E4.
+      - inversion H; subst. apply N.ltb_lt in E4. cbn [pinstr_ok].
+        eapply short_fixed; eauto. simpl. auto.
+      - destruct (default_fixed v o s op st si pi st' Hs H) as [bytes [E1 E2]]. subst pi. exact E2. }
+    destruct (String.eqb (os_name op) "intc") eqn:Eintc.
+    { apply String.eqb_eq in Eintc.
+      destruct (s_imms si) as [|[n| | | | | | |] [|? ?]]; try discriminate.
+      destruct (n <? 256) eqn:E256; try discriminate. apply N.ltb_lt in E256.
+      destruct (write_const names v "intc" n (a_nintc st)) as [l|] eqn:W; try discriminate.
+      inversion H; subst. cbn [pinstr_ok]. eapply const_fixed; eauto. simpl. auto. }
+    destruct (String.eqb (os_name op) "bytec") eqn:Ebytec.
+    { apply String.eqb_eq in Ebytec.
+      destruct (s_imms si) as [|[n| | | | | | |] [|? ?]]; try discriminate.
+      destruct (n <? 256) eqn:E256; try discriminate. apply N.ltb_lt in E256.
+      destruct (write_const names v "bytec" n (a_nbytec st)) as [l|] eqn:W; try discriminate.
+      inversion H; subst. cbn [pinstr_ok]. eapply const_fixed; eauto. simpl. auto. }
+    destruct (String.eqb (os_name op) "intcblock") eqn:Eib.
+    { apply String.eqb_eq in Eib.
+      destruct (s_imms si) as [|[| | | | |l| |] [|? ?]] eqn:Esi; try discriminate.
+      destruct (forallb u64_ok l) eqn:Eu; try discriminate. inversion H; subst pi. cbn [pinstr_ok].
+      destruct (Hblock _ _ _ _ Hs) as [Hk _]. specialize (Hk Eib).
+      destruct (single_kind _ _ Hk) as [im [Eim Ekind]].
+      cbn [forallb feasible_imm] in Hfe. rewrite andb_true_r in Hfe.
+      change (os_opcode op :: put_uvarint (nlen l) ++ flat_map put_uvarint l)
+        with (os_opcode op :: enc_imm (VInts l)).
+      eapply single_fixed; eauto.
+      - rewrite Eim. discriminate.
+      - rewrite Eim. cbn [AvmCodec.imms_wf]. unfold AvmCodec.imm_wf. rewrite Ekind. rewrite Hfe, Eu. reflexivity. }
+    destruct (String.eqb (os_name op) "bytecblock") eqn:Ebb.
+    { apply String.eqb_eq in Ebb.
+      destruct (s_imms si) as [|[| | | | | |l|] [|? ?]] eqn:Esi; try discriminate.
+      destruct (forallb (fun bs => nlen bs <=? max_str) l) eqn:Eu; try discriminate.
+      inversion H; subst pi. cbn [pinstr_ok].
+      destruct (Hblock _ _ _ _ Hs) as [_ Hk]. specialize (Hk Ebb).
+      destruct (single_kind _ _ Hk) as [im [Eim Ekind]].
+      cbn [forallb feasible_imm] in Hfe. rewrite andb_true_r in Hfe.
+      change (os_opcode op :: put_uvarint (nlen l) ++ flat_map enc_bytes l)
+        with (os_opcode op :: enc_imm (VBytess l)).
+      eapply single_fixed; eauto.
+      - rewrite Eim. discriminate.
+      - rewrite Eim. cbn [AvmCodec.imms_wf]. unfold AvmCodec.imm_wf. rewrite Ekind. rewrite Hfe.
+        rewrite (forallb_u64_of_max _ Eu). reflexivity. }
+    (* dispatch on the kinds of the immediates *)
+    assert (Hdef : forall pi0, asm_default v st si op = Some (pi0, st') -> pinstr_ok v pi0).
+    { intros pi0 Hd. destruct (default_fixed v o s op st si pi0 st' Hs Hd) as [bytes [E1 E2]].
+      subst pi0. exact E2. }
+    destruct (map (fun im => kind_of (im_kind im)) (os_imms op)) as [|k [|k2 kr]] eqn:Ek;
+      try (apply Hdef; exact H).
+    2:{ destruct k; apply Hdef; exact H. }
+    assert (Hne : os_imms op <> []) by (intros C; rewrite C in Ek; discriminate).
+    destruct (single_kind _ _ Ek) as [im [Eim Ekind]].
+    pose proof (sub_zero_of_imms v o s op Hs Hne) as Hz. rewrite Hz in Hs, Hsub. clear Hz.
+    destruct k; destruct (s_imms si) as [|x [|x2 xr]] eqn:Esi; try (apply Hdef; exact H);
+      destruct x; try (apply Hdef; exact H).
+    - (* [KLabel], [SLabel k] *)
+      inversion H; subst pi. cbn [pinstr_ok]. exists op. rewrite Hop. split; auto.
+    - (* [KInt], [SInt n] *)
+      destruct (u64_ok n) eqn:Eu; try discriminate. inversion H; subst pi. cbn [pinstr_ok].
+      change (os_opcode op :: put_uvarint n) with (os_opcode op :: enc_imm (VInt n)).
+      eapply single_fixed; eauto.
+      rewrite Eim. cbn [AvmCodec.imms_wf]. unfold AvmCodec.imm_wf. rewrite Ekind. rewrite Eu. reflexivity.
+    - (* [KBytes], [SBytes bs] *)
+      destruct (nlen bs <=? max_str) eqn:Eu; try discriminate. inversion H; subst pi. cbn [pinstr_ok].
+      change (os_opcode op :: enc_bytes bs) with (os_opcode op :: enc_imm (VBytes bs)).
+      eapply single_fixed; eauto.
+      rewrite Eim. cbn [AvmCodec.imms_wf]. unfold AvmCodec.imm_wf. rewrite Ekind.
+      rewrite (u64_of_max _ Eu). reflexivity.
+    - (* [KInts], [SInts l] *)
+      destruct (forallb u64_ok l) eqn:Eu; try discriminate. inversion H; subst pi. cbn [pinstr_ok].
+      cbn [forallb feasible_imm] in Hfe. rewrite andb_true_r in Hfe.
+      change (os_opcode op :: put_uvarint (nlen l) ++ flat_map put_uvarint l)
+        with (os_opcode op :: enc_imm (VInts l)).
+      eapply single_fixed; eauto.
+      rewrite Eim. cbn [AvmCodec.imms_wf]. unfold AvmCodec.imm_wf. rewrite Ekind. rewrite Hfe, Eu. reflexivity.
+    - (* [KBytess], [SBytess l] *)
+      destruct (forallb (fun bs => nlen bs <=? max_str) l) eqn:Eu; try discriminate.
+      inversion H; subst pi. cbn [pinstr_ok].
+      cbn [forallb feasible_imm] in Hfe. rewrite andb_true_r in Hfe.
+      change (os_opcode op :: put_uvarint (nlen l) ++ flat_map enc_bytes l)
+        with (os_opcode op :: enc_imm (VBytess l)).
+      eapply single_fixed; eauto.
+      rewrite Eim. cbn [AvmCodec.imms_wf]. unfold AvmCodec.imm_wf. rewrite Ekind. rewrite Hfe.
+      rewrite (forallb_u64_of_max _ Eu). reflexivity.
+    - (* [KLabels], [SLabels ks] *)
+      destruct (List.length ks <=? 255)%nat eqn:Eu; try discriminate. inversion H; subst pi.
+      cbn [pinstr_ok]. apply Nat.leb_le in Eu. split; auto. exists op. rewrite Hop. split; auto.
+    - (* [KVLabel], [SVLabel k] *)
+      inversion H; subst pi. cbn [pinstr_ok]. exists op. rewrite Hop. split; auto.
+  Qed.
+
+  Lemma asm_one_ok : forall v st si pi st',
+    forallb feasible_imm (s_imms si) = true ->
+    asm_one v st si = Some (pi, st') -> pinstr_ok v pi.
+  Proof.
+    intros v st si pi st' Hfe H. unfold AvmCodec.asm_one in H.
+    destruct (spec_at v (s_op si) (s_sub si)) as [op|] eqn:Hs; try discriminate.
+    destruct (asm_res v st si op) as [[pi0 st1]|] eqn:R; try discriminate.
+    inversion H; subst. eapply asm_res_ok; eauto.
+  Qed.
+
+  Lemma asm_pass1_ok : forall v labs p idx st ps,
+    feasible p = true -> asm_pass1 v labs idx st p = Some ps ->
+    Forall (pinstr_ok v) ps /\ List.length ps = List.length p.
+  Proof.
+    induction p as [|si p IH]; intros idx st ps Hfe H; cbn [AvmCodec.asm_pass1] in H.
+    - inversion H; subst. split; [constructor|reflexivity].
+    - unfold feasible in Hfe. cbn [forallb] in Hfe. apply andb_true_iff in Hfe. destruct Hfe as [F1 F2].
+      match type of H with (match asm_one v ?st0 si with _ => _ end) = _ =>
+        destruct (asm_one v st0 si) as [[pi st1]|] eqn:E1 end; try discriminate.
+      destruct (asm_pass1 v labs (S idx) st1 p) as [l|] eqn:E2; try discriminate.
+      inversion H; subst. destruct (IH _ _ _ F2 E2) as [I1 I2]. split.
+      + constructor; auto. eapply asm_one_ok; eauto.
+      + simpl. rewrite I2. reflexivity.
+  Qed.
+
+  (* ---------------------------------------------------------------- resolveLabels *)
+  Lemma resolve2_i16 : forall v labs poss endpos offpos k l,
+    resolve2 v labs poss endpos offpos k = Some l ->
+    exists j, i16_ok j = true /\ l = enc_i16 j.
+  Proof.
+    intros v labs poss endpos offpos k l H. unfold AvmCodec.resolve2 in H.
+    destruct (label_pos labs poss k) as [dest|]; try discriminate.
+    destruct ((v <=? 1) && (dest =? endpos)%nat); try discriminate.
+    destruct ((v <? back_ver) && (dest <? offpos)%nat); try discriminate.
+    destruct (i16_ok (Z.of_nat dest - Z.of_nat offpos)) eqn:E; try discriminate.
+    inversion H; subst. eauto.
+  Qed.
+
+  Lemma resolve2s_i16 : forall v labs poss endpos offpos ks l,
+    resolve2s v labs poss endpos offpos ks = Some l ->
+    exists js, forallb i16_ok js = true /\ List.length js = List.length ks /\ l = flat_map enc_i16 js.
+  Proof.
+    induction ks as [|k ks IH]; intros l H; cbn [AvmCodec.resolve2s] in H.
+    - inversion H; subst. exists []. auto.
+    - destruct (resolve2 v labs poss endpos offpos k) as [a|] eqn:E1; try discriminate.
+      destruct (resolve2s v labs poss endpos offpos ks) as [b|] eqn:E2; try discriminate.
+      inversion H; subst. destruct (resolve2_i16 _ _ _ _ _ _ _ E1) as [j [J1 J2]].
+      destruct (IH _ eq_refl) as [js [K1 [K2 K3]]]. exists (j :: js).
+      cbn [forallb List.length flat_map]. rewrite J1, K1, K2, J2, K3. auto.
+  Qed.
+
+  Lemma branch_fixed : forall v opb k x,
+    branch_spec v opb k ->
+    (forall im, kind_of (im_kind im) = k -> imm_wf im x = true) ->
+    fixed_wf v (opb :: enc_imm x).
+  Proof.
+    intros v opb k x [op [Hs Hk]] Hw. destruct (single_kind _ _ Hk) as [im [Eim Ekind]].
+    exists (mkI opb 0 [x]). split.
+    - eapply wf_intro; eauto. rewrite Eim. cbn [AvmCodec.imms_wf]. rewrite (Hw im Ekind). reflexivity.
+    - unfold enc_instr. cbn [i_op i_sub i_imms flat_map]. rewrite app_nil_r. reflexivity.
+  Qed.
+
+  Lemma i64_of_limit : forall (vs : nat) (j : Z),
+    (vs <= 9)%nat ->
+    (- 2 ^ (7 * Z.of_nat vs - 1) <= j < 2 ^ (7 * Z.of_nat vs - 1))%Z -> i64_ok j = true.
+  Proof.
+    intros vs j Hvs Hj.
+    assert (2 ^ (7 * Z.of_nat vs - 1) <= 2 ^ 62)%Z.
+    { destruct (Nat.eq_dec vs 0) as [E|E].
+      - subst. change (2 ^ (7 * Z.of_nat 0 - 1))%Z with 0%Z. lia.
+      - apply Z.pow_le_mono_r; lia. }
+    unfold i64_ok. apply andb_true_iff. split; apply Z.leb_le; lia.
+  Qed.
+
+  Lemma resolve_one_enc : forall v labs poss endpos pos pi vs bytes,
+    pinstr_ok v pi -> (vs <= 9)%nat ->
+    (forall op k dest, pi = PBranchV op k -> label_pos labs poss k = Some dest -> dest <> pos ->
+                       List.length (put_varint (vjump pos vs dest)) = vs) ->
+    resolve_one v labs poss endpos pos pi vs = Some bytes ->
+    fixed_wf v bytes /\ List.length bytes = psize pi vs.
+  Proof.
+    intros v labs poss endpos pos pi vs bytes Hok Hvs Hex H. destruct pi as [b|opb k|opb k|opb ks];
+      cbn [AvmCodec.resolve_one pinstr_ok psize] in *.
+    - inversion H; subst. auto.
+    - destruct (resolve2 v labs poss endpos (pos + 3) k) as [l|] eqn:E; try discriminate.
+      inversion H; subst. destruct (resolve2_i16 _ _ _ _ _ _ _ E) as [j [J1 J2]]. subst l. split.
+      + change (opb :: enc_i16 j) with (opb :: enc_imm (VLabel j)).
+        eapply branch_fixed; eauto. intros im Ek. unfold AvmCodec.imm_wf. rewrite Ek. exact J1.
+      + reflexivity.
+    - destruct (label_pos labs poss k) as [dest|] eqn:El; try discriminate.
+      destruct ((v <=? 1) && (dest =? endpos)%nat); try discriminate.
+      destruct ((v <? back_ver) && (dest <? pos + 1 + vs)%nat); try discriminate.
+      destruct (dest =? pos)%nat eqn:Ed; try discriminate. apply Nat.eqb_neq in Ed.
+      match type of H with (if ?c then _ else _) = _ => destruct c eqn:Elim end; try discriminate.
+      apply orb_false_iff in Elim. destruct Elim as [L1 L2]. apply Z.ltb_ge in L1. apply Z.leb_gt in L2.
+      inversion H; subst. pose proof (Hex opb k dest eq_refl El Ed) as Hlen.
+      unfold pad0. rewrite Hlen. rewrite Nat.sub_diag. cbn [repeat]. rewrite app_nil_r. split.
+      + change (opb :: put_varint (vjump pos vs dest)) with (opb :: enc_imm (VVLabel (vjump pos vs dest))).
+        eapply branch_fixed; eauto. intros im Ek. unfold AvmCodec.imm_wf. rewrite Ek.
+        eapply i64_of_limit; eauto.
+      + cbn [List.length]. rewrite Hlen. reflexivity.
+    - destruct Hok as [Hb Hl].
+      destruct (resolve2s v labs poss endpos (pos + 2 + 2 * List.length ks) ks) as [l|] eqn:E; try discriminate.
+      inversion H; subst. destruct (resolve2s_i16 _ _ _ _ _ _ _ E) as [js [K1 [K2 K3]]]. subst l. split.
+      + replace (nlen ks) with (nlen js) by (unfold nlen; rewrite K2; reflexivity).
+        change (opb :: nlen js :: flat_map enc_i16 js) with (opb :: enc_imm (VLabels js)).
+        eapply branch_fixed; eauto. intros im Ek. unfold AvmCodec.imm_wf. rewrite Ek. rewrite K1.
+        rewrite andb_true_r. apply N.ltb_lt. unfold nlen. lia.
+      + cbn [List.length].
+        assert (Hl2 : forall l, List.length (flat_map enc_i16 l) = (2 * List.length l)%nat).
+        { induction l as [|j l IHl]; [reflexivity|]. cbn [flat_map]. rewrite app_length, IHl.
+          unfold enc_i16. cbn [List.length]. lia. }
+        rewrite Hl2. lia.
+  Qed.
+
+  Lemma resolve_all_enc : forall v labs poss endpos ps pos vss bytes,
+    Forall (pinstr_ok v) ps -> Forall (fun x => (x <= 9)%nat) vss ->
+    exact_sizes labs poss pos ps vss ->
+    resolve_all v labs poss endpos pos ps vss = Some bytes ->
+    exists q, forallb (wf_instr v) q = true /\ bytes = enc_instrs q /\ List.length q = List.length ps.
+  Proof.
+    induction ps as [|pi ps IH]; intros pos vss bytes Hok Hb Hex H.
+    - cbn [AvmCodec.resolve_all] in H. inversion H; subst. exists []. auto.
+    - destruct vss as [|vs vss]; [inversion Hex|].
+      cbn [AvmCodec.resolve_all] in H.
+      destruct (resolve_one v labs poss endpos pos pi vs) as [a|] eqn:R1; try discriminate.
+      destruct (resolve_all v labs poss endpos (pos + psize pi vs) ps vss) as [b|] eqn:R2; try discriminate.
+      inversion H; subst. inversion Hok; subst. inversion Hb; subst.
+      inversion Hex as [|? ? ? ? ? Hx Hrest]; subst.
+      destruct (resolve_one_enc _ _ _ _ _ _ _ _ H2 H4 Hx R1) as [[i [W1 W2]] _].
+      destruct (IH _ _ _ H3 H5 Hrest R2) as [q [Q1 [Q2 Q3]]].
+      exists (i :: q). cbn [forallb]. rewrite W1, Q1. split; auto. split.
+      + unfold enc_instrs in *. cbn [flat_map]. rewrite <- W2, <- Q2. reflexivity.
+      + simpl. rewrite Q3. reflexivity.
+  Qed.
+
+  Lemma find_sizes_bound : forall labs B fuel ps vss r,
+    find_sizes labs fuel ps vss = Some r -> List.length ps = List.length vss ->
+    Forall (fun x => (1 <= x <= B)%nat) vss -> Forall (fun x => (1 <= x <= B)%nat) r.
+  Proof.
+    intros labs B. induction fuel as [|fuel IH]; intros ps vss r H Hl Hb; cbn [find_sizes] in H.
+    - destruct (nat_list_eqb (shrink_step labs (positions 0 ps vss) 0 ps vss) vss); try discriminate.
+      inversion H; subst. auto.
+    - destruct (nat_list_eqb (shrink_step labs (positions 0 ps vss) 0 ps vss) vss).
+      + inversion H; subst. auto.
+      + apply IH in H; auto.
+        * rewrite shrink_step_length; auto.
+        * assert (Hb1 : Forall (fun x => (1 <= x)%nat) vss).
+          { eapply Forall_impl; [|exact Hb]. simpl. intros; lia. }
+          pose proof (shrink_step_shrunk labs (positions 0 ps vss) ps 0 vss Hl Hb1) as Hs.
+          clear -Hs Hb. induction Hs; [constructor|]. inversion Hb; subst. constructor; [lia|auto].
+  Qed.
+
+  (* Everything the assembler model accepts is the canonical encoding of a well-formed
+     program of the codec: version prefix + one well-formed instruction per statement. *)
+  Theorem asm_output_canonical : forall v p labs b,
+    feasible p = true -> asm_base v p labs = AOk b ->
+    exists q, wf_prog tbl grp logic_ver v q = true /\ b = enc_prog v q /\
+              List.length q = List.length p.
+  Proof.
+    intros v p labs b Hfe H. unfold AvmCodec.asm_base in H.
+    destruct (logic_ver <? v) eqn:Ev; try discriminate. apply N.ltb_ge in Ev.
+    destruct (asm_pass1 v labs 0 (mkA false 0 0) p) as [ps|] eqn:P1; try discriminate.
+    destruct (find_sizes labs (2 * List.length ps + 1) ps (map (fun _ => 3%nat) ps)) as [vss|] eqn:F;
+      try discriminate.
+    destruct (resolve_all v labs (positions 0 ps vss) (last (positions 0 ps vss) 0%nat) 0 ps vss)
+      as [pending|] eqn:R; try discriminate.
+    inversion H; subst b. clear H.
+    destruct (asm_pass1_ok _ _ _ _ _ _ Hfe P1) as [Hok Hlen].
+    pose proof (branch_sizes_exact labs back_ver v ps _ vss pending F R) as Hex.
+    assert (Hb : Forall (fun x => (1 <= x <= 3)%nat) vss).
+    { eapply find_sizes_bound; eauto.
+      - rewrite map_length. reflexivity.
+      - clear. induction ps; simpl; constructor; auto; lia. }
+    assert (Hb9 : Forall (fun x => (x <= 9)%nat) vss).
+    { eapply Forall_impl; [|exact Hb]. simpl. intros; lia. }
+    destruct (resolve_all_enc _ _ _ _ _ _ _ _ Hok Hb9 Hex R) as [q [Q1 [Q2 Q3]]].
+    exists q. split; [|split].
+    - unfold AvmCodec.wf_prog. rewrite Q1. rewrite andb_true_r. apply andb_true_iff. split.
+      + apply N.leb_le. exact Ev.
+      + unfold u64_ok. apply N.ltb_lt. lia.
+    - unfold enc_prog. rewrite Q2. reflexivity.
+    - lia.
+  Qed.
+End AsmCanon.
